@@ -223,6 +223,28 @@ pub fn drive_c06(a: &Args) {
             call_all(&mut out, &per, &pat, &vec![0x58], &[0, 1, 5], &[0]);
         }
     }
+    // long subjects over a RICH alphabet (64 code points from all planes): search algorithms with per-character
+    // tables (skip tables, hashed or truncated indices) only show their flaws when many distinct characters meet
+    {
+        let mut alpha: Vec<u32> = (0..56u32).map(|i| (i * 0x2F3D + 0x61) % (MAX_CHAR + 1)).collect();
+        alpha.extend([0, 0x5C, 0xD800, 0xFFFF, 0x10000, 0x20000, 0x20061, MAX_CHAR]);
+        for _ in 0..a.sz(220, 2500) {
+            let n = rng.range(262, 330) as usize;
+            let mut s: Vec<u32> = (0..n).map(|_| *rng.pick(&alpha)).collect();
+            let plen = rng.range(3, 5) as usize;
+            let pos = rng.range(4, (n - plen - 1) as u32) as usize;
+            let t: Vec<u32> = s[pos..pos + plen].to_vec();
+            // a near miss before the real occurrence: the pattern without its last character
+            if pos > plen + 2 {
+                let q = rng.range(0, (pos - plen) as u32) as usize;
+                for k in 0..plen - 1 {
+                    s[q + k] = t[k];
+                }
+            }
+            let is: Vec<i32> = vec![0, rng.range(0, pos as u32) as i32];
+            call_all(&mut out, &s, &t, &vec![0x58], &is, &[0]);
+        }
+    }
     // random strings over real code points
     let pool = [0u32, 1, 0x41, 0x42, 0xFFFF, 0x10000, MAX_CHAR - 1, MAX_CHAR, 0xD800, 0xDFFF, 0xFFFD];
     for _ in 0..a.sz(800, 15000) {
@@ -650,6 +672,27 @@ pub fn drive_c08(a: &Args) {
                 t.push(x);
                 t.extend(base[p..].iter());
                 out.emit(parse_event(&t));
+            }
+        }
+    }
+    // what number parsers of standard libraries accept but SMT-LIB does not: a sign, blanks, underscores, a radix
+    // prefix in the digit positions of an escape
+    for pre in [vec![43u32], vec![45], vec![32], vec![95], vec![48, 120], vec![48, 88], vec![9]] {
+        for digits in [vec![52u32, 49], vec![48, 52, 49], vec![50, 102, 102, 102], vec![52], vec![48, 48, 52, 49]] {
+            for post in [vec![], vec![32u32], vec![95]] {
+                let mut inner = pre.clone();
+                inner.extend(digits.iter());
+                inner.extend(post.iter());
+                let mut braced = vec![92, 117, 123];
+                braced.extend(inner.iter());
+                braced.push(125);
+                out.emit(parse_event(&braced));
+                if inner.len() == 4 {
+                    let mut four = vec![92, 117];
+                    four.extend(inner.iter());
+                    four.push(122);
+                    out.emit(parse_event(&four));
+                }
             }
         }
     }
